@@ -454,6 +454,19 @@ impl Schema {
                     return;
                 }
 
+                if schema.0.env.registry.introspection_mode == IntrospectionMode::IntrospectionOnly
+                    || env.introspection_mode == IntrospectionMode::IntrospectionOnly
+                {
+                    // no subscription resolver runs in introspection-only mode
+                    yielder
+                        .yield_item(Response::from_errors(vec![ServerError::new(
+                            "Schema is not configured for subscription.",
+                            None,
+                        )]))
+                        .await;
+                    return;
+                }
+
                 let ctx = env.create_context(
                     &schema.0.env,
                     None,
